@@ -38,6 +38,52 @@ type CEnv struct {
 	inSpec    bool
 	noUnfold  bool
 	oldVars   map[string]*CV // entry-time bindings (parameters), used by old()
+	// witness propagation: role +1 = this subformula is a fact being assumed
+	// (its existentials are skolemised with named functions), -1 = it has to be
+	// established (its existentials are offered the named skolem terms and the
+	// witness hints as extra disjuncts, an equivalent formula), 0 = neither.
+	role int
+	univ []Term // enclosing universally bound variables usable as skolem arguments
+}
+
+func (env *CEnv) withRole(r int) *CEnv {
+	e := *env
+	e.role = r
+	return &e
+}
+
+// assuming / proving mark how the formula built from this environment is used.
+func (env *CEnv) assuming() *CEnv { e := env.withRole(1); e.univ = nil; return e }
+func (env *CEnv) proving() *CEnv  { e := env.withRole(-1); e.univ = nil; return e }
+
+type skolemFn struct {
+	name string
+	args []Sort
+	ret  Sort
+}
+
+// replaceToken substitutes whole SMT symbols only.
+func replaceToken(s, name, by string) string {
+	var b strings.Builder
+	for i := 0; i < len(s); {
+		j := strings.Index(s[i:], name)
+		if j < 0 {
+			b.WriteString(s[i:])
+			break
+		}
+		j += i
+		end := j + len(name)
+		okL := j == 0 || strings.ContainsRune(" ()", rune(s[j-1]))
+		okR := end == len(s) || strings.ContainsRune(" ()", rune(s[end]))
+		b.WriteString(s[i:j])
+		if okL && okR {
+			b.WriteString(by)
+		} else {
+			b.WriteString(name)
+		}
+		i = end
+	}
+	return b.String()
 }
 
 func (x *Exec) cvOfVal(v *Val) *CV {
@@ -207,6 +253,21 @@ func tokOf(op string) token.Token {
 }
 
 func (x *Exec) eval(env *CEnv, e CExpr) (*CV, error) {
+	if env.role != 0 {
+		// roles survive only through the connectives whose polarity is tracked
+		keep := false
+		switch n := e.(type) {
+		case *CQuant, *CAll, *CAnyTable:
+			keep = true
+		case *CBin:
+			keep = n.Op == "&&" || n.Op == "||" || n.Op == "==>"
+		case *CUn:
+			keep = n.Op == "!"
+		}
+		if !keep {
+			env = env.withRole(0)
+		}
+	}
 	switch n := e.(type) {
 	case *CInt:
 		return &CV{Const: n.V}, nil
@@ -331,6 +392,9 @@ func (x *Exec) eval(env *CEnv, e CExpr) (*CV, error) {
 }
 
 func (x *Exec) evalUn(env *CEnv, n *CUn) (*CV, error) {
+	if n.Op == "!" && env.role != 0 {
+		env = env.withRole(-env.role)
+	}
 	v, err := x.eval(env, n.X)
 	if err != nil {
 		return nil, err
@@ -368,7 +432,15 @@ func (x *Exec) evalUn(env *CEnv, n *CUn) (*CV, error) {
 func (x *Exec) evalBin(env *CEnv, n *CBin) (*CV, error) {
 	switch n.Op {
 	case "&&", "||", "==>", "<==>":
-		a, err := x.evalBool(env, n.X)
+		lenv := env
+		if n.Op == "==>" && env.role != 0 {
+			lenv = env.withRole(-env.role)
+		}
+		if n.Op == "<==>" && env.role != 0 {
+			env = env.withRole(0)
+			lenv = env
+		}
+		a, err := x.evalBool(lenv, n.X)
 		if err != nil {
 			return nil, err
 		}
@@ -605,9 +677,94 @@ func (x *Exec) evalQuant(env *CEnv, n *CQuant) (*CV, error) {
 		binders = append(binders, fmt.Sprintf("(%s %s)", name, srt))
 		inner.vars[v.Name] = &CV{T: Term{name, srt}, Ty: ty}
 	}
+	// witness propagation (see CEnv.role)
+	universal := (n.Forall && env.role == 1) || (n.Forall && env.role == -1)
+	skolemise := (!n.Forall && env.role == 1) || (n.Forall && false)
+	offer := !n.Forall && env.role == -1
+	switch {
+	case universal:
+		inner.univ = append([]Term(nil), env.univ...)
+		for _, v := range n.Vars {
+			inner.univ = append(inner.univ, inner.vars[v.Name].T)
+		}
+	case skolemise:
+		// keep role and univ: nested facts stay facts
+	default:
+		inner.role = 0
+		inner.univ = nil
+	}
+	if skolemise {
+		var as []Sort
+		var at []string
+		for _, u := range env.univ {
+			as = append(as, u.Sort)
+			at = append(at, u.S)
+		}
+		for _, v := range n.Vars {
+			cv := inner.vars[v.Name]
+			x.nSkolem++
+			sk := fmt.Sprintf("sk!%s!%d", v.Name, x.nSkolem)
+			var ss []string
+			for _, s := range as {
+				ss = append(ss, string(s))
+			}
+			x.sc.Decl("skolem:"+sk, fmt.Sprintf("(declare-fun %s (%s) %s)", sk, strings.Join(ss, " "), cv.T.Sort))
+			app := sk
+			if len(at) > 0 {
+				app = "(" + sk + " " + strings.Join(at, " ") + ")"
+			}
+			x.skolems = append(x.skolems, skolemFn{sk, as, cv.T.Sort})
+			inner.vars[v.Name] = &CV{T: Term{app, cv.T.Sort}, Ty: cv.Ty}
+		}
+		body, err := x.evalBool(&inner, n.Body)
+		if err != nil {
+			return nil, err
+		}
+		return &CV{T: body, Ty: types.Typ[types.Bool]}, nil
+	}
 	body, err := x.evalBool(&inner, n.Body)
 	if err != nil {
 		return nil, err
+	}
+	var offered []Term
+	if offer && len(n.Vars) == 1 {
+		vname := inner.vars[n.Vars[0].Name].T
+		var cands []string
+		var at []string
+		for _, u := range env.univ {
+			at = append(at, u.S)
+		}
+		for _, sk := range x.skolems {
+			if sk.ret != vname.Sort || len(sk.args) != len(env.univ) {
+				continue
+			}
+			same := true
+			for i := range sk.args {
+				same = same && sk.args[i] == env.univ[i].Sort
+			}
+			if !same {
+				continue
+			}
+			if len(at) > 0 {
+				cands = append(cands, "("+sk.name+" "+strings.Join(at, " ")+")")
+			} else {
+				cands = append(cands, sk.name)
+			}
+		}
+		if len(cands) > 8 {
+			cands = cands[len(cands)-8:]
+		}
+		wenv := inner.withRole(0)
+		for _, w := range n.Witness {
+			cv, err := x.eval(wenv, w)
+			if err != nil {
+				return nil, fmt.Errorf("witness: %v", err)
+			}
+			cands = append(cands, x.cvTerm(cv, inner.vars[n.Vars[0].Name]).S)
+		}
+		for _, c := range cands {
+			offered = append(offered, Term{replaceToken(body.S, vname.S, c), SBool})
+		}
 	}
 	_ = guards
 	q := "forall"
@@ -627,7 +784,11 @@ func (x *Exec) evalQuant(env *CEnv, n *CQuant) (*CV, error) {
 		qnames = append(qnames, inner.vars[v.Name].T.S)
 	}
 	if pat := x.opaquePattern(bs, qnames); pat != "" {
-		return &CV{T: T(SBool, "(%s (%s) (! %s :pattern (%s)))", q, strings.Join(binders, " "), bs, pat), Ty: types.Typ[types.Bool]}, nil
+		res := T(SBool, "(%s (%s) (! %s :pattern (%s)))", q, strings.Join(binders, " "), bs, pat)
+		if len(offered) > 0 {
+			res = Or(append(offered, res)...)
+		}
+		return &CV{T: res, Ty: types.Typ[types.Bool]}, nil
 	}
 	for i, v := range n.Vars {
 		name := inner.vars[v.Name].T.S
@@ -637,11 +798,15 @@ func (x *Exec) evalQuant(env *CEnv, n *CQuant) (*CV, error) {
 		if off, ok := soleIndexOffset(bs, name); ok {
 			abs := strings.Replace(name, "!q", "!abs", 1)
 			bs = strings.ReplaceAll(bs, "(bvadd "+off+" "+name+")", abs)
-			bs = strings.ReplaceAll(bs, name, "(bvsub "+abs+" "+off+")")
+			bs = replaceToken(bs, name, "(bvsub "+abs+" "+off+")")
 			binders[i] = fmt.Sprintf("(%s %s)", abs, SBV64)
 		}
 	}
-	return &CV{T: T(SBool, "(%s (%s) %s)", q, strings.Join(binders, " "), bs), Ty: types.Typ[types.Bool]}, nil
+	res := T(SBool, "(%s (%s) %s)", q, strings.Join(binders, " "), bs)
+	if len(offered) > 0 {
+		res = Or(append(offered, res)...)
+	}
+	return &CV{T: res, Ty: types.Typ[types.Bool]}, nil
 }
 
 func (x *Exec) evalIndex(env *CEnv, n *CIndex) (*CV, error) {
